@@ -10,6 +10,28 @@ VERIF = Path(__file__).resolve().parent.parent
 ALL = [f"C{i:02d}" for i in range(1, 21)]
 
 CHECKS = {
+    "C03": dict(
+        category="model_checking",
+        technique="TLC trace validation of recorded format_code runs against PipelineTrace.tla (KeepValid per stage, FinalValid); isolated rules and sub/subn on corpora; FileWrite.tla write-guard model replayed into format_file",
+        text=("Every stage of every recorded format_code run (Shapes.tla cases, repository snippets, fragments, stdlib modules) is "
+              "checked by TLC to keep the text parsable; every rule is applied in isolation to every snippet; sub/subn results must "
+              "parse; the write guard of format_file is model-checked (FileWrite.tla: NeverBreakValid, NoWriteIfEqual) and its "
+              "decision table replayed on temp files with a formatter stub returning valid / invalid / identical text."),
+        note="Trusted: CPython's parser as validity oracle, TLC, the recording wrappers. Coverage is corpus-driven, not exhaustive.",
+        design_ref="DESIGN.md sections 3.2, 5 (C03)",
+    ),
+    "C04": dict(
+        category="model_checking",
+        technique="TLA+ design model of the fixpoint loops (Pipeline.tla: termination under fairness for every abstract rule set) + TLC trace validation of recorded runs (Returns, Budget, ExitOnRepeat, early returns) with a kill-able time limit",
+        text=("Pipeline.tla proves (by exhaustive TLC search over all rule functions on a 3-document space, budgets scaled) that the "
+              "loop structure terminates within its budget and leaves each loop exactly on the first repeat. Every real run over "
+              "Shapes.tla cases (construct catalogue x position x newline x options), all repository snippets (plain, safe, "
+              "fragment, no trailing newline, truncated), junk strings and stdlib modules is recorded and validated by TLC "
+              "against the same actions: it must return, within the wall-clock limit, through the specified control structure, "
+              "and hand invalid / blank / skip-file input back."),
+        note="Trusted: TLC, the wall-clock limit as the meaning of 'bounded time', the recording wrappers. Input space is a cover, not exhaustive.",
+        design_ref="DESIGN.md sections 3.2, 5 (C04)",
+    ),
     "C10": dict(
         category="model_checking",
         technique="TLA+ model (Scheduler.tla) checked exhaustively by TLC; every TLC scenario replayed into processing.fix/chain; TLC trace validation of recorded real scheduler calls",
